@@ -179,6 +179,194 @@ theorem eq_refines [BEq ν] (parse : ρ → Option ν) (a b : Store κ ρ ν) :
 
 end
 
+/-! ### encoded keys (`BinaryCIFBlock`) -/
+
+section
+variable {κ κ' ρ ν : Type} [BEq κ] [LawfulBEq κ] [BEq κ'] [LawfulBEq κ']
+
+/-- every stored key is an encoded user key -/
+def Img {α : Type} (enc : κ → κ') (l : List (κ' × α)) : Prop := ∀ kv ∈ l, ∃ k, kv.1 = enc k
+
+theorem enc_beq (enc : κ → κ') (dec : κ' → κ) (hdec : ∀ k, dec (enc k) = k) (j k : κ) :
+    (enc j == enc k) = (j == k) := by
+  by_cases h : j = k
+  · subst h; simp
+  · have : enc j ≠ enc k := fun e => h (by rw [← hdec j, ← hdec k, e])
+    rw [beq_eq_false_iff_ne.mpr this, beq_eq_false_iff_ne.mpr h]
+
+theorem lookup_mapKeys {α : Type} (enc : κ → κ') (dec : κ' → κ) (hdec : ∀ k, dec (enc k) = k)
+    (l : List (κ' × α)) (hl : Img enc l) (k : κ) : lookup k (mapKeys dec l) = lookup (enc k) l := by
+  induction l with
+  | nil => rfl
+  | cons x xs ih =>
+    obtain ⟨j, hj⟩ := hl x (by simp)
+    obtain ⟨k', v⟩ := x
+    simp only at hj
+    subst hj
+    have := ih (fun kv h => hl kv (by simp [h]))
+    simp only [mapKeys, List.map_cons, lookup, hdec, enc_beq enc dec hdec] at this ⊢
+    rw [this]
+
+theorem dictSet_mapKeys {α : Type} (enc : κ → κ') (dec : κ' → κ) (hdec : ∀ k, dec (enc k) = k)
+    (l : List (κ' × α)) (hl : Img enc l) (k : κ) (v : α) :
+    mapKeys dec (dictSet (enc k) v l) = dictSet k v (mapKeys dec l) := by
+  induction l with
+  | nil => simp [mapKeys, dictSet, hdec]
+  | cons x xs ih =>
+    obtain ⟨j, hj⟩ := hl x (by simp)
+    obtain ⟨k', w⟩ := x
+    simp only at hj
+    subst hj
+    have := ih (fun kv h => hl kv (by simp [h]))
+    by_cases h : (j == k) = true
+    · simp [mapKeys, dictSet, hdec, enc_beq enc dec hdec, h]
+    · have h' : (j == k) = false := by simpa using h
+      simp only [mapKeys, List.map_cons, dictSet, hdec, enc_beq enc dec hdec, h', Bool.false_eq_true, if_false] at this ⊢
+      rw [this]
+
+theorem erase_mapKeys {α : Type} (enc : κ → κ') (dec : κ' → κ) (hdec : ∀ k, dec (enc k) = k)
+    (l : List (κ' × α)) (hl : Img enc l) (k : κ) :
+    mapKeys dec (erase (enc k) l) = erase k (mapKeys dec l) := by
+  induction l with
+  | nil => rfl
+  | cons x xs ih =>
+    obtain ⟨j, hj⟩ := hl x (by simp)
+    obtain ⟨k', w⟩ := x
+    simp only at hj
+    subst hj
+    have := ih (fun kv h => hl kv (by simp [h]))
+    by_cases h : (j == k) = true
+    · simp [mapKeys, erase, hdec, enc_beq enc dec hdec, h]
+    · have h' : (j == k) = false := by simpa using h
+      simp only [mapKeys, List.map_cons, erase, hdec, enc_beq enc dec hdec, h', Bool.false_eq_true, if_false] at this ⊢
+      rw [this]
+
+theorem img_dictSet {α : Type} (enc : κ → κ') (l : List (κ' × α)) (hl : Img enc l) (k : κ) (v : α) :
+    Img enc (dictSet (enc k) v l) := by
+  induction l with
+  | nil => intro kv h; simp [dictSet] at h; exact ⟨k, by rw [h]⟩
+  | cons x xs ih =>
+    obtain ⟨k', w⟩ := x
+    intro kv h
+    by_cases hk : (k' == enc k) = true
+    · simp only [dictSet, hk, if_true, List.mem_cons] at h
+      rcases h with rfl | h
+      · exact ⟨k, rfl⟩
+      · exact hl kv (by simp [h])
+    · have hk' : (k' == enc k) = false := by simpa using hk
+      simp only [dictSet, hk', Bool.false_eq_true, if_false, List.mem_cons] at h
+      rcases h with rfl | h
+      · exact hl _ (by simp)
+      · exact ih (fun kv h => hl kv (by simp [h])) kv h
+
+theorem img_erase {α : Type} (enc : κ → κ') (l : List (κ' × α)) (hl : Img enc l) (k' : κ') :
+    Img enc (erase k' l) := by
+  induction l with
+  | nil => intro kv h; simp [erase] at h
+  | cons x xs ih =>
+    obtain ⟨j, w⟩ := x
+    intro kv h
+    by_cases hk : (j == k') = true
+    · simp only [erase, hk, if_true] at h
+      exact hl kv (by simp [h])
+    · have hk' : (j == k') = false := by simpa using hk
+      simp only [erase, hk', Bool.false_eq_true, if_false, List.mem_cons] at h
+      rcases h with rfl | h
+      · exact hl _ (by simp)
+      · exact ih (fun kv h => hl kv (by simp [h])) kv h
+
+theorem img_abs (enc : κ → κ') (parse : ρ → Option ν) (st : Store κ' ρ ν) (h : Img enc st) :
+    Img enc (absStore parse st) := by
+  intro kv hkv
+  simp only [absStore, List.mem_map] at hkv
+  obtain ⟨x, hx, rfl⟩ := hkv
+  exact h x hx
+
+theorem specStep_mapKeys (enc : κ → κ') (dec : κ' → κ) (hdec : ∀ k, dec (enc k) = k) (kind : Kind)
+    (parse : ρ → Option ν) (sp : Spec κ' ν) (hsp : Img enc sp) (op : Op κ ρ ν) :
+    specStep kind parse (mapKeys dec sp) op =
+      (mapKeys dec (specStep kind parse sp (encOp enc op)).1, decOut dec (specStep kind parse sp (encOp enc op)).2) := by
+  have hlen : (mapKeys dec sp).length = sp.length := by simp [mapKeys]
+  cases op with
+  | get k =>
+    simp only [specStep, encOp, lookup_mapKeys enc dec hdec sp hsp]
+    cases lookup (enc k) sp with
+    | none => rfl
+    | some o => cases o <;> rfl
+  | set k v => simp [specStep, encOp, dictSet_mapKeys enc dec hdec sp hsp, decOut]
+  | setRaw k r =>
+    simp only [specStep, encOp]
+    cases kind.rawSetEager with
+    | false => rfl
+    | true =>
+      cases parse r with
+      | none => rfl
+      | some v => simp [dictSet_mapKeys enc dec hdec sp hsp, decOut]
+  | del k =>
+    simp only [specStep, encOp, hlen, lookup_mapKeys enc dec hdec sp hsp]
+    cases (kind.delGuard && sp.length == 1) with
+    | true => rfl
+    | false =>
+      cases lookup (enc k) sp with
+      | none => rfl
+      | some _ => simp [erase_mapKeys enc dec hdec sp hsp, decOut]
+  | has k =>
+    simp only [specStep, encOp, lookup_mapKeys enc dec hdec sp hsp]
+    rfl
+  | iter => simp [specStep, encOp, decOut, mapKeys, List.map_map, Function.comp_def]
+  | len => simp [specStep, encOp, decOut, hlen]
+
+theorem img_step (enc : κ → κ') (kind : Kind) (parse : ρ → Option ν) (st : Store κ' ρ ν) (h : Img enc st)
+    (op : Op κ ρ ν) : Img enc (step kind parse st (encOp enc op)).1 := by
+  cases op with
+  | get k =>
+    simp only [step, encOp]
+    split
+    · exact h
+    · exact h
+    · split
+      · exact img_dictSet enc st h k _
+      · exact h
+  | set k v => exact img_dictSet enc st h k _
+  | setRaw k r =>
+    simp only [step, encOp]
+    cases kind.rawSetEager with
+    | false => exact h
+    | true =>
+      cases parse r with
+      | none => exact h
+      | some v => exact img_dictSet enc st h k _
+  | del k =>
+    simp only [step, encOp]
+    cases (kind.delGuard && st.length == 1) with
+    | true => exact h
+    | false =>
+      cases lookup (enc k) st with
+      | none => exact h
+      | some _ => exact img_erase enc st h _
+  | has k => exact h
+  | iter => exact h
+  | len => exact h
+
+theorem stepP_refines (enc : κ → κ') (dec : κ' → κ) (hdec : ∀ k, dec (enc k) = k) (kind : Kind)
+    (parse : ρ → Option ν) (st : Store κ' ρ ν) (h : Img enc st) (op : Op κ ρ ν) :
+    specStep kind parse (absP dec parse st) op =
+      (absP dec parse (stepP enc dec kind parse st op).1, (stepP enc dec kind parse st op).2) := by
+  unfold absP stepP
+  rw [specStep_mapKeys enc dec hdec kind parse _ (img_abs enc parse st h) op, step_refines]
+
+theorem runP_refines (enc : κ → κ') (dec : κ' → κ) (hdec : ∀ k, dec (enc k) = k) (kind : Kind)
+    (parse : ρ → Option ν) (ops : List (Op κ ρ ν)) (st : Store κ' ρ ν) (h : Img enc st) :
+    specRun kind parse (absP dec parse st) ops =
+      (absP dec parse (runP enc dec kind parse st ops).1, (runP enc dec kind parse st ops).2) := by
+  induction ops generalizing st with
+  | nil => rfl
+  | cons op ops ih =>
+    have h' : Img enc (stepP enc dec kind parse st op).1 := img_step enc kind parse st h op
+    simp only [specRun, runP, stepP_refines enc dec hdec kind parse st h op, ih _ h']
+
+end
+
 /-! ### cached row count -/
 
 section
